@@ -153,34 +153,34 @@ void ppExGCD(word d[], word da[], word db[], const word a[], size_t n,
 	{
 		// пока u делится на x
 		for (; wwTestBit(u, 0) == 0; wwShLo(u, nu, 1))
-			if (wwTestBit(da0, 0) == 0)
+			if (wwTestBit(da0, 0) == 0 && wwTestBit(db0, 0) == 0)
 			{
 				// da0 <- da0 / x, db0 <- db0 / x
 				wwShLo(da0, m, 1);
-				ASSERT(wwTestBit(db0, 0) == 0);
 				wwShLo(db0, n, 1);
 			}
 			else
 			{
 				// da0 <- (da0 + bb) / x, db0 <- (db0 + aa) / x
+				ASSERT(wwTestBit(da0, 0) == wwTestBit(bb, 0));
+				ASSERT(wwTestBit(db0, 0) == wwTestBit(aa, 0));
 				wwXor2(da0, bb, m), wwShLo(da0, m, 1);
-				ASSERT(wwTestBit(db0, 0) == 1);
 				wwXor2(db0, aa, n), wwShLo(db0, n, 1);
 			}
 		// пока v делится на x
 		for (; wwTestBit(v, 0) == 0; wwShLo(v, mv, 1))
-			if (wwTestBit(da, 0) == 0)
+			if (wwTestBit(da, 0) == 0 && wwTestBit(db, 0) == 0)
 			{
 				// da <- da / x, db <- db / x
 				wwShLo(da, m, 1);
-				ASSERT(wwTestBit(db, 0) == 0);
 				wwShLo(db, n, 1);
 			}
 			else
 			{
 				// da <- (da + bb) / x, db <- (db + aa) / x
+				ASSERT(wwTestBit(da, 0) == wwTestBit(bb, 0));
+				ASSERT(wwTestBit(db, 0) == wwTestBit(aa, 0));
 				wwXor2(da, bb, m), wwShLo(da, m, 1);
-				ASSERT(wwTestBit(db, 0) == 1);
 				wwXor2(db, aa, n), wwShLo(db, n, 1);
 			}
 		// нормализация
